@@ -330,3 +330,7 @@ def run(repo: Repo, rep: Report, tier: str) -> None:
         rep.check(keyed, "C12-R12", "_compute_edge_locked_colors: the colour-deciding order of merge ids is numeric", "sorted(..., key=...)" if keyed else
                   f"`{celc.text(lp.iter.args[0], lp)[:80]}` orders ids as strings: with ten or more ids handed out `wire_merge_10` sorts before `wire_merge_7`", elc.loc(lp))
     rep.floor("C12-R12", "colour-by-position loops over merge ids", n12, 1)
+
+    # ---------------- R13 --------------------------------------------------------------
+    _borrow12b(repo, rep, "C15", "C15-R5", "C12-R13", "a name inside a function body means the function's own parameter or local, not a top-level name another computation happens to "
+               "use: every identifier resolution in the lowering asks the parameter environment first", floor=2)
